@@ -621,7 +621,10 @@ fn p_lru_ops(b: &[u8], env: &Env) -> Result<Val, String> {
     std::fs::create_dir_all(&dir).map_err(|e| e.to_string())?;
     let generation = 9u64;
     std::fs::write(lru_file_path(&dir, generation), b).map_err(|e| e.to_string())?;
-    let mut m = LruManager::new(8, dir.clone());
+    // a tracker of the capacity the checkpoint was written with (a tracker of another capacity rebuilds the
+    // table from the `next` chain and never looks at the other links)
+    let cap = (b.len().saturating_sub(0x1C) / 0x14).clamp(1, 4096) as u32;
+    let mut m = LruManager::new(cap, dir.clone());
     env.rt.block_on(m.load_from_disk(generation)).map_err(|e| e.to_string())?;
     let mut keys: Vec<[u8; 9]> = Vec::new();
     m.for_each_entry(|k| {
